@@ -313,7 +313,11 @@ theorem RInv.recWrite {w : World} (hinv : RInv R cyc w) (f : Nat) (r' : Rec) (hw
       exact hinv.d.j y hy hV hck hg ho row hrow ht
   · intro z hz hex
     by_cases hzf : z = f
-    · subst hzf; exact hOV hz hex
+    · subst hzf
+      rcases hOV hz hex with h | ⟨h1, h2 | h2⟩
+      · exact .inl h
+      · exact .inr (.inr ⟨h1, h2⟩)
+      · exact .inr (.inl h2)
     · rw [hne z hzf] at hz ⊢
       exact hinv.d.ov z hz hex
   · intro z hz
